@@ -152,6 +152,7 @@ def scanOptions : Bytes → Scan → List Bytes × Bytes
 inductive AKResult where
   | ok (key : C41.AnyKey) (comment : Bytes) (options : List Bytes) (rest : Option Bytes)
   | err
+deriving DecidableEq
 
 /-- one line (already cut at "\n"): `some result` = return, `none` = `continue` with the next line -/
 def authorizedLine (o : PtOracle) (line : Bytes) (rest : Option Bytes) : Option AKResult :=
@@ -207,6 +208,7 @@ inductive KHResult where
   | err      -- parse error
   | eof      -- io.EOF: no entry found
   | panic    -- an index out of range in the Go code (proved unreachable)
+deriving DecidableEq
 
 def splitComma : Bytes → Bytes → List Bytes
   | [], cur => [cur.reverse]
